@@ -47,7 +47,78 @@ def mk_rich_processor(ex, u):
         mutable = (st.alloc(HList([VInt(z3.Int(f"m{i}_l0")), VInt(z3.Int(f"m{i}_l1"))])) if i == 0 else
                    st.alloc(HDict([(VStr("offset"), VFloat(z3.Real(f"m{i}_offset")))])))
         d.items = [(k0, d.items[0][1]), (k1, mutable)]
+    # every OTHER model group of the pipeline is populated too (one model each): a copy must carry all ten groups
+    pipe = st.cell(ex.scn["pipe"])
+    pci = pipe.cls
+    mgc, mfc = u.cls(f"{MG}::ModelGroup"), u.cls(f"{MF}::ModelFunction")
+    groups = [x.value for x in ast.walk(pci.classvars["MODEL_GROUPS"]) if isinstance(x, ast.Constant) and isinstance(x.value, str)]
+    for g in groups:
+        if isinstance(pipe.fields.get("_" + g), VNone) or pipe.fields.get("_" + g) is None:
+            dd = st.alloc(HDict([(VStr("level"), VInt(z3.Int(f"{g}_level")))]))
+            mf = ex.instantiate(mfc, [], {"func": VStr(f"pkg.mod.{g}_fn"), "name": VStr(f"{g}_model"), "arguments": dd, "enabled": VBool(z3.Bool(f"{g}_enabled"))}, Frame(None, mfc.module))
+            pipe.fields["_" + g] = ex.instantiate(mgc, [], {"models": st.alloc(HList([mf])), "name": VStr(g)}, Frame(None, mgc.module))
     return proc
+
+
+def iso(st, a, b, allow=lambda cls, key: False, seen=None, path="", diffs=None):
+    """Structural equality of the object graphs rooted at a and b (same classes, same field / key sets, equal scalars,
+    element-wise lists and dicts); differences are collected as paths. `allow(class name, field or key)` exempts settings
+    that the operation is meant to change."""
+    seen = {} if seen is None else seen
+    diffs = [] if diffs is None else diffs
+    if isinstance(a, VMaybe) or isinstance(b, VMaybe):
+        if not (isinstance(a, VMaybe) and isinstance(b, VMaybe) and z3.eq(z_bool(a.present), z_bool(b.present))):
+            diffs.append(path + ": optional presence differs")
+            return diffs
+        return iso(st, a.val, b.val, allow, seen, path, diffs)
+    if isinstance(a, VRef) and isinstance(b, VRef):
+        if a.addr in seen:
+            if seen[a.addr] != b.addr:
+                diffs.append(path + ": sharing structure differs")
+            return diffs
+        seen[a.addr] = b.addr
+        ca, cb = st.heap[a.addr], st.heap[b.addr]
+        if type(ca) is not type(cb):
+            diffs.append(f"{path}: {type(ca).__name__} vs {type(cb).__name__}")
+        elif isinstance(ca, HObj):
+            na, nb = getattr(ca.cls, "name", ca.cls), getattr(cb.cls, "name", cb.cls)
+            if na != nb:
+                diffs.append(f"{path}: class {na} vs {nb}")
+            for k in sorted(set(ca.fields) | set(cb.fields)):
+                if allow(na, k):
+                    continue
+                if k not in ca.fields or k not in cb.fields:
+                    diffs.append(f"{path}.{k}: present in one only")
+                elif ca.fields[k] is not None and cb.fields[k] is not None:
+                    iso(st, ca.fields[k], cb.fields[k], allow, seen, f"{path}.{k}", diffs)
+        elif isinstance(ca, HList):
+            if len(ca.items) != len(cb.items):
+                diffs.append(f"{path}: list length {len(ca.items)} vs {len(cb.items)}")
+            for i, (x, y) in enumerate(zip(ca.items, cb.items)):
+                iso(st, x, y, allow, seen, f"{path}[{i}]", diffs)
+        elif isinstance(ca, HDict):
+            if len(ca.items) != len(cb.items):
+                diffs.append(f"{path}: dict size {len(ca.items)} vs {len(cb.items)}")
+            for (k1, v1), (k2, v2) in zip(ca.items, cb.items):
+                iso(st, k1, k2, allow, seen, f"{path}<key>", diffs)
+                if not allow("dict", str(getattr(k1, "v", k1))):
+                    iso(st, v1, v2, allow, seen, f"{path}[{getattr(k1, 'v', k1)}]", diffs)
+        elif isinstance(ca, HArr):
+            if len(ca.shape) != len(cb.shape) or ca._elem is not cb._elem and str(ca.elem(tuple(z3.Int(f"iso{i}") for i in range(len(ca.shape))))) != str(cb.elem(tuple(z3.Int(f"iso{i}") for i in range(len(cb.shape))))):
+                diffs.append(f"{path}: array content differs")
+        return diffs
+    if type(a) is not type(b):
+        diffs.append(f"{path}: {type(a).__name__} vs {type(b).__name__}")
+    elif isinstance(a, VTuple):
+        if len(a.items) != len(b.items):
+            diffs.append(f"{path}: tuple length")
+        for i, (x, y) in enumerate(zip(a.items, b.items)):
+            iso(st, x, y, allow, seen, f"{path}({i})", diffs)
+    elif hasattr(a, "v"):
+        same = (a.v is b.v) or (is_conc(a.v) and is_conc(b.v) and a.v == b.v) or (not is_conc(a.v) and not is_conc(b.v) and z3.eq(a.v, b.v))
+        if not same:
+            diffs.append(f"{path}: value {a.v} vs {b.v}")
+    return diffs
 
 
 def reach(st, roots, mutable_only=True):
@@ -82,12 +153,23 @@ from pyxel.observation.misc import create_new_processor
 det = VP.detector(quantum_efficiency=0.5)
 det.pixel.array = np.full((3, 4), 7.0); det._memory['trapped'] = np.ones(3)
 args = {'level': 1, 'table': [1, 2, 3]}
-pipe = DetectionPipeline(photon_collection=[ModelFunction(func='verif_probes.probe', name='m', arguments=args)])
+groups = ['scene_generation', 'phasing', 'charge_generation', 'charge_collection', 'charge_transfer', 'charge_measurement', 'signal_transfer', 'readout_electronics', 'data_processing']
+pipe = DetectionPipeline(photon_collection=[ModelFunction(func='verif_probes.probe', name='m', arguments=args)],
+                         **{g: [ModelFunction(func='verif_probes.probe', name=g + '_m', arguments={'level': i}, enabled=bool(i % 2))] for i, g in enumerate(groups)})
 proc = Processor(detector=det, pipeline=pipe)
+def layout(p):
+    return [(g, [(m.name, m.enabled, dict(m.arguments)) for m in getattr(p.pipeline, g).models] if getattr(p.pipeline, g) is not None else None) for g in ['photon_collection'] + groups]
 VIOLATED, DETAIL = False, ''
 for make in (lambda: create_new_processor(processor=proc, parameter_dict={'detector.characteristics.quantum_efficiency': 0.25}),
              lambda: proc.replace({'pipeline.photon_collection.m.arguments.level': 5}), lambda: copy.deepcopy(proc)):
     new = make()
+    want = layout(proc)
+    if make.__code__.co_consts and 'pipeline.photon_collection.m.arguments.level' in str(make.__code__.co_consts):
+        want[0] = ('photon_collection', [('m', True, {'level': 5, 'table': [1, 2, 3]})])
+    if layout(new) != want:
+        missing = [g for (g, a), (_, b) in zip(want, layout(new)) if a != b]
+        VIOLATED, DETAIL = True, 'the copy made for a run does not carry the same pipeline: groups that differ: ' + repr(missing)
+        break
     new.detector.pixel.array[0, 0] = -1.0; new.detector._memory['trapped'][0] = -1.0
     new.pipeline.photon_collection.models[0].arguments['table'].append(99); new.pipeline.photon_collection.models[0].enabled = False
     new.detector.characteristics.quantum_efficiency = 0.9
@@ -109,10 +191,12 @@ def check_copy(u, p, name, new, holder, expect_changed=0):
     u.oblige(p, f"{name}.caller_unchanged", not ch, {"changed": str(ch)[:200]}, ISO_REPLAY)
     # structure preserved: same classes at corresponding places
     ok = isinstance(new, VRef) and getattr(st.heap[new.addr].cls, "name", "") == "Processor"
+    diffs = []
     if ok:
-        nf, of = st.heap[new.addr].fields, st.heap[holder["proc"].addr].fields
-        ok = all(type(nf.get(k)) is type(of.get(k)) for k in ("detector", "pipeline"))
-    u.oblige(p, f"{name}.same_structure", bool(ok), {}, ISO_REPLAY)
+        # the copy is structurally EQUAL to the original (every group, model, argument, bucket), except for the settings the
+        # operation was asked to change
+        diffs = iso(st, holder["proc"], new, allow=holder.get("allow", lambda cls, key: False))
+    u.oblige(p, f"{name}.same_structure", bool(ok and not diffs), {"differences": str(diffs[:4])[:300]}, ISO_REPLAY)
 
 
 def mk_cfg(u):
@@ -175,6 +259,8 @@ def new_processor_unit(label, qual, call):
             d = ex.st.alloc(HDict([(key, VFloat(0.25)), (key2, VInt(z3.Int("swept_value")))]))
             holder.update(proc=proc, upto=ex.st.next_addr + 1, snap=None)
             holder["snap"] = C08.snapshot(ex)
+            swept_arg = str(ex.scn["argn"][1].v)
+            holder["allow"] = lambda cls, key, swept_arg=swept_arg: (cls == "Characteristics" and key == "_quantum_efficiency") or (cls == "dict" and key == swept_arg)
             return call(proc, d)
         ps = u.paths(fi, setup, cfg, label=label)
         for p in ps:
@@ -215,7 +301,7 @@ def calib_update(u: Unit):
         var = st.alloc(HObj(pci, {"_key": key, "_values": VStr("_"), "_logarithmic": VBool(False), "_enabled": VBool(True)}))
         me = st.alloc(HObj(mci, {"_variables": st.alloc(HList([var]))}))
         par = st.alloc(HArr((1,), VDtype("float64"), lambda ix: VFloat(0.25)))
-        holder.update(proc=proc, upto=st.next_addr, snap=C08.snapshot(ex))
+        holder.update(proc=proc, upto=st.next_addr, snap=C08.snapshot(ex), allow=lambda cls, key: cls == "Characteristics" and key == "_quantum_efficiency")
         return [me], {"parameter": par, "processor": proc}
     ps = u.paths(fi, setup, cfg, label="update_processor")
     for p in ps:
